@@ -302,7 +302,16 @@ func visitInstr(fr *frame, instr ssa.Instruction) continuation {
 		}
 
 	case *ssa.Go:
-		panic(unsupported{"go statement"})
+		// goroutines are run cooperatively: each to completion, at the next synchronisation point of
+		// its creator (WaitGroup.Wait, the end of the harness), in an order that is the executor's
+		// choice while schedule exploration is on (no preemption: interleavings inside a goroutine's
+		// body are the business of the write-set lemma)
+		fn, args := prepareCall(fr, &instr.Call)
+		fr.i.ps.goroutines = append(fr.i.ps.goroutines, func() {
+			fr.i.ps.inGoroutine++
+			defer func() { fr.i.ps.inGoroutine-- }()
+			call(fr.i, nil, instr.Pos(), fn, args)
+		})
 
 	case *ssa.MakeChan:
 		fr.env[instr] = make(chan value, asInt64(fr.get(instr.Size)))
